@@ -11,8 +11,8 @@ SPEC = {
         "regtest, 104 empty base blocks, histories <= 34 ops; no pruning; txindex legacy format not exercised",
     ],
     "stages": [
-        gen("vh_c21", "c21_indexes", 320, 6000, min_cases_quick=40, max_seconds_quick=420,
-            floors={"reorg": 0.25, "restart": 0.25, "reorg-while-behind+restart": 0.08, "interrupted-mid-sync": 0.08, "stale-branch-with-spends": 0.1},
+        gen("vh_c21", "c21_indexes", 320, 6000, min_cases_quick=40, max_seconds_quick=300,
+            floors={"reorg": 0.25, "restart": 0.25, "reorg-while-behind+restart": 0.08, "interrupted-mid-sync": 0.08, "stale-branch-with-spends": 0.1, "restart-on-stale-best-not-below-tip": 0.15},
             rule="fork/reorg histories with 4 indexes started, lagging, interrupted mid-sync and restarted; non-trivial = reorg while an index was behind/absent + restart"),
         gen("vh_c21", "c21_muhash", 4000, 80000, min_cases_quick=400, max_seconds_quick=120,
             floors={"permuted": 0.3, "remove-before-insert": 0.15},
